@@ -602,6 +602,7 @@ def r2_heap_arrays(ctx):
             ctx.check(ok, R, site, "reviewed writer of %s (%s)" % (f, how),
                       "heap accounting array `%s` written (%s) outside its reviewed writers %s" % (f, how, sorted(allowed[f])), body.loc(bi, si))
     ctx.floor(R, "heap-array write sites", n, 14)
+    per_slot_arrays_reset_on_reuse(ctx, R)
     # fields are private
     adt = F.adt(EXEC)
     for f in adt["variants"][0]["fields"]:
@@ -613,6 +614,36 @@ def r2_heap_arrays(ctx):
         callers = {k.split("::{closure")[0] for k, _ in F.callers_of(EXEC + "::" + name)}
         bad = [c for c in callers if not c.startswith("quiver_core::executor::")]
         ctx.check(not bad, R, "callers(%s)" % name, "%s is called only inside executor.rs (%d callers)" % (name, len(callers)), "%s called from %s" % (name, bad))
+
+
+def per_slot_arrays_reset_on_reuse(ctx, R):
+    """every array that grows by one entry when a FRESH heap slot is created is per-slot state; each of them must also be (re)written at the slot's
+    index when a RECLAIMED slot is reused — otherwise the new occupant inherits the previous occupant's entry (a stale count, a stale `freed` flag, a
+    memoised hash of different bytes)"""
+    F = ctx.facts
+    b = F.body(EXEC + "::allocate_binary_data")
+    flow = Flow(b)
+    grown, rewritten = {}, {}
+    for bi, t in b.calls():
+        c = (t.get("callee") or "").split("::")[-1]
+        if not t["args"] or not op_place(t["args"][0]):
+            continue
+        cp = flow.canon_op(t["args"][0])
+        fs = [e for e in (cp[1] if cp else ()) if e[0] == "f" and (e[2] or "") == EXEC]
+        if not fs:
+            continue
+        if c == "push" and "Vec" in (t.get("callee") or ""):
+            grown[fs[-1][1]] = bi
+        if c == "index_mut":
+            rewritten[fs[-1][1]] = bi
+    pops = [bi for bi, t in b.calls() if (t.get("callee") or "").endswith("Vec::pop") and t["args"] and flow.canon_op(t["args"][0]) and
+            any(e[0] == "f" and e[1] == "free" for e in flow.canon_op(t["args"][0])[1])]
+    if not pops or not grown:
+        raise CheckError("%s: allocate_binary_data no longer has the reuse (free.pop) / grow (push) shape — cannot decide" % R)
+    missing = sorted(set(grown) - set(rewritten))
+    ctx.check(not missing, R, b.key + "|per-slot-arrays-reset-on-reuse", "every per-slot array (%s) is rewritten at the index of a reused slot" % ", ".join(sorted(grown)),
+              "per-slot array(s) %s grow with every fresh slot but are not reset when a reclaimed slot is reused: the new occupant inherits the previous "
+              "occupant's entry" % missing, b.loc(grown[missing[0]]) if missing else b.loc(0))
 
 
 def r3_reclaim_at_step_boundary(ctx):
@@ -934,8 +965,77 @@ def r7_process_returns_to_table(ctx):
     ctx.floor(R, "running-process removals", n, 3)
 
 
+ORPHAN_RETAIN_REVIEWED = {
+    "quiver_core::executor::Executor::retain": "the recursion over a tuple's elements: counting IS the purpose",
+    "quiver_core::executor::Executor::call_receive_function": "the retained message enters select_state.receiving; the `None` edge of `if let Some(state) = &mut "
+                                                              "proc.select_state` is infeasible (a receive function is only called from the source walk of an "
+                                                              "initialised select)",
+}
+
+
+def r8_no_orphan_retain(ctx):
+    R = "R-C06-8"
+    ctx.rule(R, "the dual of the audit: a reference counted by Executor::retain(v) is OWNED by something — on every non-error path from the retain to the "
+                "function's exit, v (its value group) is stored into a GC root, handed back to the caller, or released again. A retain followed by an early "
+                "return (e.g. `if process.result.is_some() { return Ok(()) }` after the completion value was injected and retained) leaves a slot with a "
+                "count no root accounts for: never reclaimed")
+    F = ctx.facts
+    roots = derive_roots(F)
+    per = {}
+    for s in enumerate_sites(F, roots):
+        per.setdefault(s.body.key, []).append(s)
+    n = 0
+    for body in F.bodies():
+        if body.fn["crate"] not in RUNTIME_CRATES:
+            continue
+        rets = [(bi, t) for bi, t in body.calls_to("Executor::retain")]
+        if not rets:
+            continue
+        fln = Flow(body, through_named=True)
+        errb = err_blocks(body) | diverging_blocks(body)
+        base = body.key.split("::{closure")[0]
+        for i, (bi, t) in enumerate(rets):
+            a = op_place(t["args"][1]) if len(t["args"]) > 1 else None
+            if not a:
+                continue
+            n += 1
+            site = "%s|retain#%d" % (base, i)
+            back = fln.backward({a["l"]}, through_calls=ADAPT)
+            grp = vset(body, back | fln.forward(back, through_calls=ADAPT))
+
+            def in_group(o):
+                pl = op_place(o or {})
+                return bool(pl) and (pl["l"] in grp or bool(vset(body, fln.backward({pl["l"]}, through_calls=ADAPT)) & grp))
+            sinks = []
+            for s in per.get(body.key, []):
+                if s.kind == "call":
+                    if (s.op in MUTATORS_IN or s.op in ("insert", "replace", "resize")) and any(in_group(x) for x in s.term["args"][1:]):
+                        sinks.append(s.bi)
+                else:
+                    rv = s.stmt["rv"]
+                    if any(in_group(x) for x in ([rv.get("op")] if rv["k"] == "use" else rv.get("ops", []))):
+                        sinks.append(s.bi)
+            for b2, t2 in body.calls():
+                c = t2.get("callee") or ""
+                if c.endswith(("Executor::release", "Executor::push_value")) and any(in_group(x) for x in t2["args"][1:]):
+                    sinks.append(b2)
+            if vset(body, fln.backward({0}, through_calls=ADAPT)) & grp:
+                ctx.ok(R, site, "the retained value is handed back to the caller", body.loc(bi))
+                continue
+            bad = explore(body, list(body.succ[bi]), avoid=sinks, stop=errb, want="return")
+            if bad is None:
+                ctx.ok(R, site, "on every non-error path the retained value is stored into a root (or released)", body.loc(bi))
+            elif base in ORPHAN_RETAIN_REVIEWED:
+                ctx.exception(R, site, "reviewed: " + ORPHAN_RETAIN_REVIEWED[base], body.loc(bi))
+            else:
+                ctx.violated(R, site, "a value is retained and then a normal return is reachable without storing it into a root, returning it or releasing it: the "
+                                      "count it holds is owned by nothing — the slot is never reclaimed (%s)" % path_desc(body, bad), body.loc(bi))
+    ctx.floor(R, "Executor::retain call sites", n, 8)
+
+
 def run(ctx):
-    ctx.run_rules([audit, r2_heap_arrays, r3_reclaim_at_step_boundary, r4_oracle_covers_roots, r5_walkers, r6_copy_on_transfer, r7_process_returns_to_table])
+    ctx.run_rules([audit, r2_heap_arrays, r3_reclaim_at_step_boundary, r4_oracle_covers_roots, r5_walkers, r6_copy_on_transfer, r7_process_returns_to_table,
+                   r8_no_orphan_retain])
     ctx.note("error (Err-returning) paths are exempt from release obligations: they correspond to VM-level failures (stack underflow, missing process) that C01/C07 rule out")
     return (
         "Decides the accounting DISCIPLINE, not byte contents: every mutation of a GC root in the workspace is paired with retain/release "
